@@ -97,6 +97,12 @@ func (s stakeTx) Validate(ctx *action.Context, tx action.SignedTx) (bool, error)
 		return false, action.ErrInvalidPubkey
 	}
 
+	// Tendermint admits ed25519 consensus keys only (the default consensus parameters of the genesis): the
+	// update for a validator with any other key type would be rejected by it and halt the chain
+	if st.ValidatorPubKey.KeyType != keys.ED25519 {
+		return false, action.ErrInvalidPubkey
+	}
+
 	// a validator's address is the address of its consensus key: a stake that announces another key
 	// (e.g. the key of an existing validator) would create two records sharing one Tendermint key
 	if h, _ := st.ValidatorPubKey.GetHandler(); !h.Address().Equal(st.ValidatorAddress) {
